@@ -25,8 +25,16 @@ def main():
     if replay:
         from . import suite
         return suite.replay_file(replay)
-    mod = importlib.import_module("simsym.props." + prop.lower())
-    return mod.main()
+    try:
+        mod = importlib.import_module("simsym.props." + prop.lower())
+        return mod.main()
+    except SystemExit:
+        raise
+    except BaseException:
+        import traceback
+        traceback.print_exc()
+        sys.stderr.write("INCONCLUSIVE: the check itself crashed\n")
+        return 2
 
 
 if __name__ == "__main__":
